@@ -486,8 +486,6 @@ Proof.
     with (map ByName (cname w (pv_cls pr) :: map (iname w) (pv_ifaces pr))).
   rewrite rebuild_list_names. cbn [map]. rewrite wf_class by assumption. rewrite wf_ifaces by assumption.
   unfold apply_fn.
-  change (Some (OClass (pv_cls pr)) :: map (fun i => Some (OIface i)) (pv_ifaces pr))
-    with (map (fun x => Some x) (OClass (pv_cls pr) :: map OIface (pv_ifaces pr))) at 1.
   replace (Some (OClass (pv_cls pr)) :: map (fun i => Some (OIface i)) (pv_ifaces pr))
     with (map (fun x : obj => Some x) (OClass (pv_cls pr) :: map OIface (pv_ifaces pr)))
     by (cbn [map]; rewrite map_map; reflexivity).
@@ -504,4 +502,392 @@ Proof.
   intros W N I. destruct (run_pinv fuel w ops) as [_ Lv].
   destruct (Lv _ _ _ N I) as (pr & Np & A). exists pr. split; [assumption|]. intros K.
   rewrite rebuild_prov by assumption. unfold provides_factory. rewrite A. reflexivity.
+Qed.
+
+(* ------------------------------------------------------------------ Provides in another process *)
+
+Lemma prov_current_eq fuel w st pr :
+  prov_current fuel w st pr = true <-> pv_bases pr = build_bases fuel w st (pv_cls pr) (pv_ifaces pr).
+Proof. unfold prov_current. apply lsref_eqb_eq. Qed.
+
+Lemma prov_current_ext fuel w a b pr : same_impl w a b -> prov_current fuel w b pr = prov_current fuel w a pr.
+Proof. intros H. unfold prov_current. rewrite (build_bases_ext w a b fuel _ _ H). reflexivity. Qed.
+
+Lemma cache_current_In fuel w st k p :
+  cache_current fuel w st = true -> In (k, p) (st_cache st) ->
+  exists pr, nth_error (st_provs st) p = Some pr /\ k = (pv_cls pr, pv_ifaces pr) /\ prov_current fuel w st pr = true.
+Proof.
+  unfold cache_current. rewrite forallb_forall. intros H I. specialize (H _ I). cbn [fst snd] in H.
+  destruct (nth_error (st_provs st) p) as [pr|]; [|discriminate].
+  apply andb_true_iff in H. destruct H as [H1 H2]. apply ckey_eqb_eq in H1. exists pr. auto.
+Qed.
+
+Lemma provides_factory_fresh fuel w st c is :
+  assoc_key (c, is) (st_cache st) = None ->
+  exists pr, nth_error (st_provs (fst (provides_factory fuel w st c is))) (snd (provides_factory fuel w st c is)) = Some pr
+    /\ pv_cls pr = c /\ pv_ifaces pr = is
+    /\ prov_current fuel w (fst (provides_factory fuel w st c is)) pr = true.
+Proof.
+  intros E. unfold provides_factory. rewrite E. cbn [fst snd st_provs].
+  exists (mkProv c is (build_bases fuel w (implementedBy fuel w st c) c is)).
+  split; [rewrite nth_error_app2 by lia; rewrite Nat.sub_diag; reflexivity|].
+  split; [reflexivity|]. split; [reflexivity|].
+  apply prov_current_eq. cbn [pv_bases pv_cls pv_ifaces]. apply build_bases_ext.
+  apply same_impl_fields. reflexivity.
+Qed.
+
+Lemma provides_roundtrip_same fuel w st st2 pr :
+  wf_globals w = true -> ids_ok w (pv_cls pr) (pv_ifaces pr) = true ->
+  same_impl w st st2 -> prov_current fuel w st pr = true -> cache_current fuel w st2 = true ->
+  exists st2' p' pr',
+    rebuild fuel w st2 (reduce_prov w pr) = (st2', Some (OProv p')) /\
+    nth_error (st_provs st2') p' = Some pr' /\
+    pv_cls pr' = pv_cls pr /\ pv_ifaces pr' = pv_ifaces pr /\ pv_bases pr' = pv_bases pr /\
+    obj_interfaces fuel w st2' (OProv p') = decl_interfaces fuel w st (pv_bases pr).
+Proof.
+  intros W I S Cu CC. rewrite rebuild_prov by assumption.
+  apply prov_current_eq in Cu.
+  destruct (assoc_key (pv_cls pr, pv_ifaces pr) (st_cache st2)) as [p'|] eqn:E.
+  - unfold provides_factory. rewrite E.
+    destruct (cache_current_In _ _ _ _ _ CC (assoc_key_In _ _ _ E)) as (pr' & N & K & Cu').
+    inversion K. apply prov_current_eq in Cu'.
+    assert (B : pv_bases pr' = pv_bases pr).
+    { rewrite Cu', Cu. rewrite <- H0, <- H1. apply build_bases_ext; assumption. }
+    exists st2, p', pr'. repeat split; auto.
+    cbn [obj_interfaces]. rewrite N, B. apply decl_interfaces_ext; assumption.
+  - destruct (provides_factory_fresh fuel w st2 _ _ E) as (pr' & N & K1 & K2 & Cu').
+    pose proof (implementedBy_same_impl fuel w st2 (pv_cls pr)) as S1.
+    assert (S2 : same_impl w st (fst (provides_factory fuel w st2 (pv_cls pr) (pv_ifaces pr)))).
+    { eapply same_impl_trans; [exact S|]. eapply same_impl_trans; [exact S1|].
+      unfold provides_factory. rewrite E. apply same_impl_fields. reflexivity. }
+    apply prov_current_eq in Cu'.
+    assert (B : pv_bases pr' = pv_bases pr).
+    { rewrite Cu', Cu, K1, K2. apply build_bases_ext; assumption. }
+    destruct (provides_factory fuel w st2 (pv_cls pr) (pv_ifaces pr)) as [st2' p'] eqn:F. cbn [fst snd] in *.
+    exists st2', p', pr'. repeat split; auto.
+    cbn [obj_interfaces]. rewrite N, B. apply decl_interfaces_ext; assumption.
+Qed.
+
+(* ---- module discipline: once the classes are declared, instance operations keep every cached
+        (hence every live) declaration current *)
+
+Lemma inst_step_same_impl fuel w st x : is_class_op x = false -> same_impl w st (step fuel w st x).
+Proof.
+  assert (D : forall o is, same_impl w st (directly_provides fuel w st o is)).
+  { intros o is. unfold directly_provides. destruct (nth_error (st_insts st) o) as [io|]; [|apply same_impl_refl].
+    unfold provides_factory. destruct (assoc_key (in_cls io, is) (st_cache st)).
+    - apply same_impl_fields. reflexivity.
+    - eapply same_impl_trans; [apply (implementedBy_same_impl fuel w st (in_cls io))|].
+      apply same_impl_fields. reflexivity. }
+  destruct x; cbn [is_class_op step]; try discriminate; intros _.
+  - apply D.
+  - apply D.
+  - apply same_impl_fields. reflexivity.
+Qed.
+
+Lemma cache_current_ext fuel w a b :
+  st_provs b = st_provs a -> st_cache b = st_cache a -> same_impl w a b ->
+  cache_current fuel w a = true -> cache_current fuel w b = true.
+Proof.
+  intros E1 E2 S. unfold cache_current. rewrite E1, E2, !forallb_forall. intros H x I. specialize (H x I).
+  destruct (nth_error (st_provs a) (snd x)); [|discriminate]. rewrite (prov_current_ext fuel w a b _ S). assumption.
+Qed.
+
+Lemma directly_provides_current fuel w st o is :
+  cache_current fuel w st = true -> cache_current fuel w (directly_provides fuel w st o is) = true.
+Proof.
+  intros CC. unfold directly_provides. destruct (nth_error (st_insts st) o) as [io|]; [|assumption].
+  destruct (assoc_key (in_cls io, is) (st_cache st)) as [p|] eqn:E.
+  - unfold provides_factory. rewrite E. eapply cache_current_ext; [| | |exact CC]; try reflexivity.
+    apply same_impl_fields. reflexivity.
+  - destruct (provides_factory_fresh fuel w st _ _ E) as (pr & N & K1 & K2 & Cu).
+    pose proof (implementedBy_same_impl fuel w st (in_cls io)) as S1.
+    destruct (implementedBy_frame fuel w st (in_cls io)) as (F1 & F2 & _).
+    revert N Cu. unfold provides_factory. rewrite E. cbn [fst snd]. intros N Cu.
+    set (st1 := implementedBy fuel w st (in_cls io)) in *.
+    match goal with |- cache_current _ _ (set_inst ?s _ _) = true => set (st' := s) in * end.
+    assert (S' : same_impl w st st').
+    { eapply same_impl_trans; [exact S1|]. apply same_impl_fields. reflexivity. }
+    eapply (cache_current_ext fuel w st'); try reflexivity; [apply same_impl_fields; reflexivity|].
+    unfold cache_current. subst st'. cbn [st_cache st_provs forallb fst snd] in *.
+    rewrite N. rewrite K1, K2, ckey_eqb_refl, Cu. cbn [andb].
+    rewrite F2. unfold cache_current in CC. rewrite forallb_forall in *. intros x I. specialize (CC x I).
+    destruct (nth_error (st_provs st) (snd x)) as [pr0|] eqn:N0; [|discriminate].
+    rewrite F1, nth_error_app1 by (apply nth_error_Some; congruence). rewrite N0.
+    rewrite (prov_current_ext fuel w st _ pr0); [assumption|].
+    eapply same_impl_trans; [exact S1|apply same_impl_fields; reflexivity].
+Qed.
+
+Lemma inst_step_current fuel w st x :
+  is_class_op x = false -> cache_current fuel w st = true -> cache_current fuel w (step fuel w st x) = true.
+Proof.
+  destruct x; cbn [is_class_op step]; try discriminate; intros _ CC.
+  - apply directly_provides_current; assumption.
+  - apply directly_provides_current; assumption.
+  - unfold cache_current in *. cbn [gc st_cache st_provs]. rewrite forallb_forall in *.
+    intros y I. apply filter_In in I. destruct I as [I _]. specialize (CC y I).
+    destruct (nth_error (st_provs st) (snd y)); [|discriminate].
+    rewrite (prov_current_ext fuel w st (gc st)); [assumption|]. apply same_impl_fields. reflexivity.
+Qed.
+
+Lemma class_ops_cache fuel w cops : forall st,
+  forallb is_class_op cops = true -> st_cache (fold_left (step fuel w) cops st) = st_cache st.
+Proof.
+  induction cops as [|x l IH]; intros st; cbn [forallb fold_left]; [reflexivity|].
+  rewrite andb_true_iff. intros [K H]. rewrite IH by assumption.
+  destruct (class_step_frame fuel w st x K) as (_ & F & _). assumption.
+Qed.
+
+Lemma inst_ops_current fuel w iops : forall st,
+  forallb (fun x => negb (is_class_op x)) iops = true -> cache_current fuel w st = true ->
+  cache_current fuel w (fold_left (step fuel w) iops st) = true /\ same_impl w st (fold_left (step fuel w) iops st).
+Proof.
+  induction iops as [|x l IH]; intros st; cbn [forallb fold_left]; [intros; split; [assumption|apply same_impl_refl]|].
+  rewrite andb_true_iff, negb_true_iff. intros [K H] CC.
+  destruct (IH (step fuel w st x) H (inst_step_current fuel w st x K CC)) as [A B].
+  split; [assumption|].
+  apply (same_impl_trans w st (step fuel w st x)); [apply inst_step_same_impl; exact K|exact B].
+Qed.
+
+Lemma module_order_current fuel w cops iops :
+  forallb is_class_op cops = true -> forallb (fun x => negb (is_class_op x)) iops = true ->
+  cache_current fuel w (run fuel w (cops ++ iops)) = true /\
+  same_impl w (run fuel w cops) (run fuel w (cops ++ iops)).
+Proof.
+  intros Hc Hi. unfold run. rewrite fold_left_app. apply inst_ops_current; [assumption|].
+  unfold cache_current. rewrite (class_ops_cache fuel w cops _ Hc). reflexivity.
+Qed.
+
+Lemma live_is_current fuel w st o io p :
+  pinv st -> cache_current fuel w st = true ->
+  nth_error (st_insts st) o = Some io -> in_provides io = Some p ->
+  exists pr, nth_error (st_provs st) p = Some pr /\ prov_current fuel w st pr = true.
+Proof.
+  intros [_ Lv] CC N I. destruct (Lv _ _ _ N I) as (pr & Np & A).
+  destruct (cache_current_In _ _ _ _ _ CC (assoc_key_In _ _ _ A)) as (pr' & Np' & _ & Cu).
+  exists pr. split; [assumption|]. congruence.
+Qed.
+
+(* the instance's declaration, pickled in the process with history cops ++ iops, unpickled in any
+   process that executed the same class-level operations (and any instance operations of its own) *)
+Lemma provides_roundtrip_fresh_process fuel w cops iops iops' o io p :
+  wf_globals w = true ->
+  forallb is_class_op cops = true ->
+  forallb (fun x => negb (is_class_op x)) iops = true ->
+  forallb (fun x => negb (is_class_op x)) iops' = true ->
+  nth_error (st_insts (run fuel w (cops ++ iops))) o = Some io -> in_provides io = Some p ->
+  exists pr, nth_error (st_provs (run fuel w (cops ++ iops))) p = Some pr /\
+    (ids_ok w (pv_cls pr) (pv_ifaces pr) = true ->
+     exists st2' p' pr',
+       rebuild fuel w (run fuel w (cops ++ iops')) (reduce_prov w pr) = (st2', Some (OProv p')) /\
+       nth_error (st_provs st2') p' = Some pr' /\
+       pv_cls pr' = pv_cls pr /\ pv_ifaces pr' = pv_ifaces pr /\ pv_bases pr' = pv_bases pr /\
+       obj_interfaces fuel w st2' (OProv p') = obj_interfaces fuel w (run fuel w (cops ++ iops)) (OProv p)).
+Proof.
+  intros W Hc Hi Hi' N I.
+  destruct (module_order_current fuel w cops iops Hc Hi) as [CC S].
+  destruct (module_order_current fuel w cops iops' Hc Hi') as [CC' S'].
+  destruct (live_is_current fuel w _ o io p (run_pinv fuel w _) CC N I) as (pr & Np & Cu).
+  exists pr. split; [assumption|]. intros K.
+  assert (S2 : same_impl w (run fuel w (cops ++ iops)) (run fuel w (cops ++ iops'))).
+  { intros k. rewrite (S' k), (S k). reflexivity. }
+  destruct (provides_roundtrip_same fuel w _ _ pr W K S2 Cu CC') as (st2' & p' & pr' & R & N' & K1 & K2 & K3 & L).
+  exists st2', p', pr'. repeat split; auto. rewrite L. cbn [obj_interfaces]. rewrite Np. reflexivity.
+Qed.
+
+(* ------------------------------------------------------------------ ClassProvides *)
+
+Definition cprov_inv (st : state) : Prop :=
+  forall q qr, nth_error (st_cprovs st) q = Some qr -> cp_bases qr = map RI (cp_ifaces qr) ++ [RType].
+
+Lemma cprov_inv_fields a b : st_cprovs b = st_cprovs a -> cprov_inv a -> cprov_inv b.
+Proof. unfold cprov_inv. intros E H. rewrite E. exact H. Qed.
+
+Lemma cprov_inv_alloc st c is : cprov_inv st -> cprov_inv (alloc_cprov st c is).
+Proof.
+  intros H q qr. cbn [alloc_cprov st_cprovs].
+  destruct (Nat.lt_ge_cases q (List.length (st_cprovs st))) as [L|L].
+  - rewrite nth_error_app1 by assumption. apply H.
+  - rewrite nth_error_app2 by assumption. destruct (q - List.length (st_cprovs st)) as [|[|n]]; cbn; try discriminate.
+    intros E; inversion E; subst. reflexivity.
+Qed.
+
+Lemma implementedBy_cprov_inv fuel w : forall st c, cprov_inv st -> cprov_inv (implementedBy fuel w st c).
+Proof.
+  induction fuel as [|f IH]; intros st c H; cbn [implementedBy];
+    destruct (assoc_nat c (st_impl st)); try assumption.
+  set (st1 := fold_left (implementedBy f w) (cbases w c) st).
+  assert (F1 : cprov_inv st1).
+  { unfold st1. clear st1. generalize (cbases w c). intros l. revert st H.
+    induction l as [|x l IHl]; intros st H; cbn [fold_left]; [assumption|]. apply IHl. apply IH; assumption. }
+  assert (F2 : cprov_inv (set_impl st1 c (default_impl w c))) by (eapply cprov_inv_fields; [|exact F1]; reflexivity).
+  destruct (assoc_nat c (st_cprov_of (set_impl st1 c (default_impl w c)))); [exact F2|].
+  eapply cprov_inv_fields; [|apply (cprov_inv_alloc _ c [] F2)]. reflexivity.
+Qed.
+
+Lemma directly_provides_cprov_inv fuel w st o is : cprov_inv st -> cprov_inv (directly_provides fuel w st o is).
+Proof.
+  intros H. unfold directly_provides. destruct (nth_error (st_insts st) o) as [io|]; [|assumption].
+  unfold provides_factory. destruct (assoc_key (in_cls io, is) (st_cache st)).
+  - eapply cprov_inv_fields; [|exact H]. reflexivity.
+  - eapply cprov_inv_fields; [|apply (implementedBy_cprov_inv fuel w st (in_cls io) H)]. reflexivity.
+Qed.
+
+Lemma step_cprov_inv fuel w st x : cprov_inv st -> cprov_inv (step fuel w st x).
+Proof.
+  intros H. destruct x; cbn [step].
+  - apply implementedBy_cprov_inv; assumption.
+  - eapply cprov_inv_fields; [|apply (implementedBy_cprov_inv fuel w st c H)]. reflexivity.
+  - eapply cprov_inv_fields; [|apply (implementedBy_cprov_inv fuel w st c H)]. reflexivity.
+  - eapply cprov_inv_fields; [|apply (implementedBy_cprov_inv fuel w st c H)]. reflexivity.
+  - unfold class_provides. eapply cprov_inv_fields;
+      [|apply (cprov_inv_alloc _ c is (implementedBy_cprov_inv fuel w st c H))]. reflexivity.
+  - apply directly_provides_cprov_inv; assumption.
+  - apply directly_provides_cprov_inv; assumption.
+  - eapply cprov_inv_fields; [|exact H]. reflexivity.
+Qed.
+
+Lemma run_cprov_inv fuel w ops : cprov_inv (run fuel w ops).
+Proof.
+  unfold run. assert (H : cprov_inv (init_state w)) by (intros [|q] qr; cbn; discriminate).
+  revert H. generalize (init_state w). induction ops as [|x ops IH]; intros st H; cbn [fold_left]; [assumption|].
+  apply IH. apply step_cprov_inv; assumption.
+Qed.
+
+Lemma lookup_type w : lookup_global w g_type = Some OType.
+Proof. reflexivity. Qed.
+
+Lemma rebuild_cprov fuel w st qr :
+  wf_globals w = true -> ids_ok w (cp_cls qr) (cp_ifaces qr) = true ->
+  rebuild fuel w st (reduce_cprov w qr) =
+  (alloc_cprov (implementedBy fuel w st (cp_cls qr)) (cp_cls qr) (cp_ifaces qr),
+   Some (OCProv (List.length (st_cprovs (implementedBy fuel w st (cp_cls qr)))))).
+Proof.
+  intros W I. destruct (ids_ok_split _ _ _ I) as [Hc Hi].
+  unfold reduce_cprov. rewrite rebuild_Call.
+  rewrite <- (map_map (iname w) ByName).
+  change (ByName (cname w (cp_cls qr)) :: ByName g_type :: map ByName (map (iname w) (cp_ifaces qr)))
+    with (map ByName (cname w (cp_cls qr) :: g_type :: map (iname w) (cp_ifaces qr))).
+  rewrite rebuild_list_names. cbn [map]. rewrite wf_class by assumption. rewrite wf_ifaces by assumption.
+  rewrite lookup_type. unfold apply_fn.
+  replace (Some (OClass (cp_cls qr)) :: Some OType :: map (fun i => Some (OIface i)) (cp_ifaces qr))
+    with (map (fun x : obj => Some x) (OClass (cp_cls qr) :: OType :: map OIface (cp_ifaces qr)))
+    by (cbn [map]; rewrite map_map; reflexivity).
+  rewrite all_some_Some. rewrite map_as_iface, all_some_Some. reflexivity.
+Qed.
+
+Lemma classprovides_roundtrip fuel w ops q qr :
+  wf_globals w = true ->
+  nth_error (st_cprovs (run fuel w ops)) q = Some qr ->
+  ids_ok w (cp_cls qr) (cp_ifaces qr) = true ->
+  exists st' q' qr',
+    rebuild fuel w (run fuel w ops) (reduce_cprov w qr) = (st', Some (OCProv q')) /\
+    nth_error (st_cprovs st') q' = Some qr' /\
+    cp_cls qr' = cp_cls qr /\ cp_ifaces qr' = cp_ifaces qr /\ cp_bases qr' = cp_bases qr /\
+    obj_interfaces fuel w st' (OCProv q') = obj_interfaces fuel w (run fuel w ops) (OCProv q).
+Proof.
+  intros W N I. set (st := run fuel w ops) in *.
+  rewrite rebuild_cprov by assumption.
+  set (st1 := implementedBy fuel w st (cp_cls qr)).
+  exists (alloc_cprov st1 (cp_cls qr) (cp_ifaces qr)), (List.length (st_cprovs st1)),
+         (mkCProv (cp_cls qr) (cp_ifaces qr) (map RI (cp_ifaces qr) ++ [RType])).
+  assert (B : cp_bases qr = map RI (cp_ifaces qr) ++ [RType]) by (apply (run_cprov_inv fuel w ops q qr N)).
+  assert (Nn : nth_error (st_cprovs (alloc_cprov st1 (cp_cls qr) (cp_ifaces qr))) (List.length (st_cprovs st1))
+               = Some (mkCProv (cp_cls qr) (cp_ifaces qr) (map RI (cp_ifaces qr) ++ [RType]))).
+  { cbn [alloc_cprov st_cprovs]. rewrite nth_error_app2 by lia. rewrite Nat.sub_diag. reflexivity. }
+  repeat split; auto.
+  cbn [obj_interfaces]. rewrite Nn, N. cbn [cp_bases]. rewrite B. apply decl_interfaces_ext.
+  eapply same_impl_trans; [apply (implementedBy_same_impl fuel w st (cp_cls qr))|].
+  apply same_impl_fields. reflexivity.
+Qed.
+
+(* ------------------------------------------------------------------ objects carrying a declaration *)
+
+Lemma rebuild_inst fuel w st io d v :
+  wf_globals w = true -> in_cls io < List.length (w_classes w) ->
+  rebuild fuel w st d = (st, Some v) ->
+  (v = ONone /\ in_provides io = None) \/ (exists p, v = OProv p /\ in_provides io = Some p) ->
+  rebuild fuel w st (Call FNewObj (ByName (cname w (in_cls io)) :: d :: map RInt (in_attrs io))) =
+  (mkState (st_impl st) (st_cprov_of st) (st_cprovs st) (st_provs st) (st_cache st) (st_insts st ++ [io]),
+   Some (OInst (List.length (st_insts st)))).
+Proof.
+  intros W Hc Hd Hv. rewrite rebuild_Call. cbn [rebuild_list rebuild]. rewrite wf_class by assumption.
+  rewrite Hd. rewrite rebuild_list_ints. unfold apply_fn.
+  replace (Some (OClass (in_cls io)) :: Some v :: map (fun z => Some (OInt z)) (in_attrs io))
+    with (map (fun x : obj => Some x) (OClass (in_cls io) :: v :: map OInt (in_attrs io)))
+    by (cbn [map]; rewrite map_map; reflexivity).
+  rewrite all_some_Some. rewrite map_as_int, all_some_Some.
+  destruct io as [c pp zs]. cbn [in_cls in_provides in_attrs] in *.
+  destruct Hv as [[-> ->]|(p & -> & ->)]; reflexivity.
+Qed.
+
+Lemma object_roundtrip fuel w ops o io :
+  wf_globals w = true ->
+  nth_error (st_insts (run fuel w ops)) o = Some io ->
+  in_cls io < List.length (w_classes w) ->
+  (forall p pr, in_provides io = Some p -> nth_error (st_provs (run fuel w ops)) p = Some pr ->
+                ids_ok w (pv_cls pr) (pv_ifaces pr) = true) ->
+  exists st',
+    rebuild fuel w (run fuel w ops) (reduce_inst w (run fuel w ops) io)
+      = (st', Some (OInst (List.length (st_insts (run fuel w ops))))) /\
+    nth_error (st_insts st') (List.length (st_insts (run fuel w ops))) = Some io /\
+    st_impl st' = st_impl (run fuel w ops) /\ st_provs st' = st_provs (run fuel w ops) /\
+    st_cache st' = st_cache (run fuel w ops) /\
+    inst_provided fuel w st' io = inst_provided fuel w (run fuel w ops) io.
+Proof.
+  intros W N Hc Hp. set (st := run fuel w ops) in *.
+  set (st' := mkState (st_impl st) (st_cprov_of st) (st_cprovs st) (st_provs st) (st_cache st) (st_insts st ++ [io])).
+  assert (R : rebuild fuel w st (reduce_inst w st io) = (st', Some (OInst (List.length (st_insts st))))).
+  { unfold reduce_inst. destruct (in_provides io) as [p|] eqn:Ip.
+    - destruct (provides_roundtrip_live fuel w ops o io p W N Ip) as (pr & Np & Rp). fold st in Np, Rp.
+      rewrite Np. apply (rebuild_inst fuel w st io (reduce_prov w pr) (OProv p)); try assumption.
+      + apply Rp. apply (Hp p pr eq_refl Np).
+      + right. exists p. auto.
+    - apply (rebuild_inst fuel w st io RNone ONone); try assumption; [reflexivity|]. left; auto. }
+  exists st'. split; [exact R|]. split.
+  { unfold st'. cbn [st_insts]. rewrite nth_error_app2 by lia. rewrite Nat.sub_diag. reflexivity. }
+  repeat split.
+  unfold inst_provided. assert (S : same_impl w st st') by (apply same_impl_fields; reflexivity).
+  destruct (in_provides io) as [p|]; cbn [obj_interfaces].
+  - change (st_provs st') with (st_provs st). destruct (nth_error (st_provs st) p); [|reflexivity].
+    apply decl_interfaces_ext; assumption.
+  - apply sref_interfaces_ext; assumption.
+Qed.
+
+(* ------------------------------------------------------------------ equality and hash *)
+
+Lemma gname_eqb_refl g : gname_eqb g g = true.
+Proof. apply gname_eqb_eq; reflexivity. Qed.
+
+Lemma py_eq_refl w x : py_eq w x x = true.
+Proof.
+  destruct x; cbn [py_eq obj_eqb]; try reflexivity; try apply Nat.eqb_refl.
+  - apply gname_eqb_refl.
+  - apply Z.eqb_refl.
+Qed.
+
+Lemma roundtrip_eq_hash fuel w ops :
+  wf_globals w = true ->
+  (forall i, i < List.length (w_ifaces w) ->
+     exists y, rebuild fuel w (run fuel w ops) (reduce_iface w i) = (run fuel w ops, Some y) /\
+       py_eq w y (OIface i) = true /\
+       forall hk hid, py_hash w hk hid y = py_hash w hk hid (OIface i)) /\
+  (forall c r, c < List.length (w_classes w) -> assoc_nat c (st_impl (run fuel w ops)) = Some r ->
+     exists y, rebuild fuel w (run fuel w ops) (reduce_impl w r) = (run fuel w ops, Some y) /\
+       py_eq w y (OImpl c) = true /\
+       forall hk hid, py_hash w hk hid y = py_hash w hk hid (OImpl c)) /\
+  (forall o io p pr, nth_error (st_insts (run fuel w ops)) o = Some io -> in_provides io = Some p ->
+     nth_error (st_provs (run fuel w ops)) p = Some pr -> ids_ok w (pv_cls pr) (pv_ifaces pr) = true ->
+     exists y, rebuild fuel w (run fuel w ops) (reduce_prov w pr) = (run fuel w ops, Some y) /\
+       py_eq w y (OProv p) = true /\
+       forall hk hid, py_hash w hk hid y = py_hash w hk hid (OProv p)).
+Proof.
+  intros W. split; [|split].
+  - intros i Hi. exists (OIface i). split; [apply iface_roundtrip; assumption|].
+    split; [apply py_eq_refl|reflexivity].
+  - intros c r Hc H. exists (OImpl c). split; [apply implements_roundtrip; assumption|].
+    split; [apply py_eq_refl|reflexivity].
+  - intros o io p pr N I Np K. destruct (provides_roundtrip_live fuel w ops o io p W N I) as (pr' & Np' & R).
+    assert (pr' = pr) by congruence. subst pr'.
+    exists (OProv p). split; [apply R; assumption|]. split; [apply py_eq_refl|reflexivity].
 Qed.
